@@ -915,3 +915,36 @@ def enum_large():
         tr = sorted(set([n] + [max(1, (n * k) // 6) for k in range(1, 6)]))
         fam.append(dict(name="large:" + name, bytes=bs, toks=s, outcome=o, truncs=tr, in_S=False, nheads=len(s), status="complete", k=0, large=True))
     return fam
+
+
+def enum_long_text():
+    """Concrete text strings of 9..300 bytes that place multi-byte sequences across 8/16/32/64-byte boundaries, end in a truncated
+    sequence, or hide a surrogate / overlong / too-large sequence after the first 8 bytes (C16 beyond the exhaustive length bound)."""
+    SEQ = {2: [0xC3, 0xA9], 3: [0xE2, 0x82, 0xAC], 4: [0xF0, 0x9F, 0x98, 0x80]}
+    cases = []
+
+    def text(bs, name):
+        n = len(bs)
+        f = 0 if n < 24 else 1 if n < 256 else 2
+        cases.append((name, head(3, n, f) + bs))
+    for B in (8, 16, 32, 64):
+        for sl, q in SEQ.items():
+            for k in range(0, sl):          # sequence starts k bytes before the boundary
+                bs = [0x61] * (B - k) + q + [0x62] * 5
+                text(bs, "len%d_%dbyte_seq_at_%d" % (len(bs), sl, B - k))
+            text([0x61] * (B - 1) + q[:1], "len%d_truncated_%dbyte_at_end" % (B, sl))          # lead byte only, at the very end
+            if sl > 2:
+                text([0x61] * (B - sl + 1) + q[:sl - 1], "len%d_truncated_%dbyte_missing_last" % (B, sl))
+    text([0x61] * 9 + [0xED, 0xA0, 0x80] + [0x61] * 4, "surrogate_after_9")
+    text([0x61] * 17 + [0xC0, 0x80], "overlong_c0_after_17")
+    text([0x61] * 12 + [0xF4, 0x90, 0x80, 0x80], "above_10ffff_after_12")
+    text([0x61] * 20 + [0xE0, 0x9F, 0xBF] + [0x61] * 3, "overlong_3byte_after_20")
+    text([0x61] * 256, "ascii_256"); text([0x61] * 300, "ascii_300")
+    text(SEQ[2] * 130, "two_byte_x130_260_code_units")
+    text(SEQ[4] * 70 + [0x61], "four_byte_x70")
+    fam = []
+    for name, bs in cases:
+        o = ref_load(bs)
+        assert o.ok
+        fam.append(dict(name="text:" + name, bytes=bs, toks=[tok("raw", bytes=bs)], outcome=o, truncs=[len(bs)], in_S=False, nheads=1, status="complete", k=0))
+    return fam
